@@ -7,7 +7,9 @@
 //!        <timestamp generator N|i64> <driver name N|hex> <driver version N|hex> <app name N|hex> <app version N|hex>
 //!        <client id N|hex> <op> <cons|N> <serial D|N|Serial|LocalSerial> <ts|N> <tracing 0|1> <page size> <pages>
 //!        <via> <use cached metadata 0|1> <id of the prepared INSERT>,<id of the second batch statement>`
-//! `<op>`: query_{unpaged,page,iter} (no values) | queryv_{unpaged,page,iter} (`Session::query_*` WITH values: PREPARE +
+//! `<op>`: tracing (`Session::get_tracing_info`: two driver-built statements at the session's tracing_info_fetch_consistency,
+//! given as <cons>) | *_pages (manual paging: `*_single_page` in a loop, each response's state fed into the next call) |
+//! query_{unpaged,page,iter} (no values) | queryv_{unpaged,page,iter} (`Session::query_*` WITH values: PREPARE +
 //! EXECUTE) | execute_{unpaged,page,iter} | batch.  `<via>` (execute_* / batch): `handle` = prepare `Statement::new(text)`,
 //! configure the prepared handle; `stmt` = configure the Statement, then `Session::prepare(stmt)` (the handle must inherit
 //! everything); `cmiss` / `chit` = `CachingSession::execute_*` / `batch` with the configured Statement on a cold cache / after a
@@ -16,7 +18,7 @@
 //! <opcode>:<consistency>:<serial|->:<page size|->:<tracing bit>:<timestamp|->:<paging state|N>:<skip_metadata 0|1|->[:<BATCH body hex>]...`
 //! or `e2e-skip <why>` when the session could not be built (overloaded machine; judged by nothing, echoed by the model).
 use super::*;
-use crate::e2e::common::{INSERT, SELECT, SELECT_ALL, Shape, Strat, connect, row_specs, with_std_prepare};
+use crate::e2e::common::{INSERT, SELECT, SELECT_ALL, Shape, Strat, connect, row_specs};
 use crate::mockcluster::{Act, MockCluster, Req, act_void, rows_body, runtime};
 use crate::mocknode::{Parsed, RESP_RESULT};
 use scylla::client::SelfIdentity;
@@ -61,6 +63,29 @@ fn serial_opt(s: &str) -> Option<Option<SerialConsistency>> {
 }
 
 pub(super) const TEXT2: &str = "INSERT INTO ks.t (pk, v) VALUES (0x00, 0)";
+pub(super) const TEXTA: &str = "INSERT INTO ks.t (pk, v) VALUES (?, 1)";
+pub(super) const TEXTB: &str = "INSERT INTO ks.t (pk, v) VALUES (?, 2)";
+
+fn ids_token() -> String {
+    [INSERT, TEXT2, TEXTA, TEXTB].iter().map(|t| hex(&crate::mocknode::md5ish(t))).collect::<Vec<_>>().join(",")
+}
+
+/// The paging state the server hands out after page `j-1` (j >= 1). Iterators: `[j]`. Manual paging (`*_pages`):
+/// j = 1: EMPTY but present; even j: long (301 bytes); odd j: two bytes.
+fn state_of(j: usize, manual: bool) -> Vec<u8> {
+    if !manual {
+        return vec![j as u8];
+    }
+    if j == 1 {
+        vec![]
+    } else if j % 2 == 0 {
+        let mut v = vec![j as u8];
+        v.extend(std::iter::repeat(0xAB).take(300));
+        v
+    } else {
+        vec![j as u8, 0]
+    }
+}
 
 fn parse(w: &[&str]) -> Option<Glue> {
     if w.len() != 20 || w[0] != "glue" {
@@ -102,16 +127,18 @@ fn parse(w: &[&str]) -> Option<Glue> {
             _ => return None,
         },
     };
-    let plain = ["query_unpaged", "query_page", "query_iter", "queryv_unpaged", "queryv_page", "queryv_iter"];
-    let exec = ["execute_unpaged", "execute_page", "execute_iter"];
+    let plain = ["query_unpaged", "query_page", "query_iter", "query_pages", "queryv_unpaged", "queryv_page", "queryv_iter", "queryv_pages"];
+    let exec = ["execute_unpaged", "execute_page", "execute_iter", "execute_pages"];
     let ok = (plain.contains(&g.op.as_str()) && g.via == "-" && !g.uc)
         || (exec.contains(&g.op.as_str()) && ["handle", "stmt", "cmiss", "chit"].contains(&g.via.as_str()))
-        || (g.op == "batch" && ["handle", "cmiss", "chit"].contains(&g.via.as_str()) && !g.uc);
+        || (g.op == "batch" && ["handle", "cmiss", "chit", "pbatch"].contains(&g.via.as_str()) && !g.uc)
+        // `Session::get_tracing_info`: <cons> is the session's tracing_info_fetch_consistency; nothing else is configurable
+        || (g.op == "tracing" && g.via == "-" && !g.uc && g.cons.is_some() && g.serial.is_none() && g.ts.is_none() && !g.tracing && g.stmt_prof.is_none());
     if !ok {
         return None;
     }
     // the ids the mock answers PREPARE with (part of the case so that the model can build the BATCH body)
-    if w[19] != format!("{},{}", hex(&crate::mocknode::md5ish(INSERT)), hex(&crate::mocknode::md5ish(TEXT2))) {
+    if w[19] != ids_token() {
         return None;
     }
     if g.identity.iter().flatten().any(|s| s.len() > 200) {
@@ -131,15 +158,40 @@ pub(super) fn run(case_line: &str, ctx: &mut Ctx) -> String {
     let Some(g) = parse(&w) else { return "bad-case".into() };
     let shape = Shape { nodes: 1, dcs: 1, racks: 1, shards: 0, msb: 12, vnodes: 2, strat: Strat::Simple(1), seed: 1 };
     let n_states = g.pages - 1;
-    let handler = with_std_prepare(move |r: &Req| {
+    let manual = g.op.ends_with("_pages");
+    let reorder = g.via == "pbatch";
+    // PREPAREs of a `Session::prepare_batch` are answered in REVERSE arrival order (completion order != position order)
+    let mut held: Vec<(i16, String)> = Vec::new();
+    let handler: crate::mockcluster::ClusterHandler = Box::new(move |r: &Req| {
+        if let Parsed::Prepare { text } = &r.parsed {
+            if reorder && [TEXTA, TEXTB, TEXT2].contains(&text.as_str()) {
+                held.push((r.stream, text.clone()));
+                if held.len() < 3 {
+                    return vec![];
+                }
+                let acts = held.iter().rev().map(|(st, t)| Act::RespondOn(*st, RESP_RESULT, crate::e2e::common::std_prepared(t))).collect();
+                held.clear();
+                return acts;
+            }
+            if text.contains("system_traces") {
+                // the driver's own tracing queries: one uuid bind marker, no result metadata
+                let bind = crate::mockcluster::Specs::new("system_traces", "sessions", &[("session_id", crate::mockcluster::CqlT::Native(crate::mockcluster::T_UUID))]);
+                return vec![Act::Respond(RESP_RESULT, crate::mockcluster::prepared_body(&crate::mocknode::md5ish(text), &bind, &[], None))];
+            }
+            return vec![Act::Respond(RESP_RESULT, crate::e2e::common::std_prepared(text))];
+        }
         let params = match &r.parsed {
             Parsed::Query { text, params } if text == SELECT_ALL => params,
             Parsed::Execute { params, .. } => params,
             _ => return vec![act_void()],
         };
-        // page j answered with paging state [j+1] while more pages remain
-        let j = params.paging_state.as_ref().and_then(|p| p.first().copied()).unwrap_or(0) as usize;
-        let next = if j < n_states { Some(vec![(j + 1) as u8]) } else { None };
+        // which page is asked for: no state = 0, the empty state = 1, else the state's first byte
+        let j = match &params.paging_state {
+            None => 0,
+            Some(p) if p.is_empty() => 1,
+            Some(p) => p[0] as usize,
+        };
+        let next = if j < n_states { Some(state_of(j + 1, manual)) } else { None };
         vec![Act::Respond(RESP_RESULT, rows_body(&row_specs(), !params.skip_metadata, next.as_deref(), &[]))]
     });
     let rt = runtime(1);
@@ -165,8 +217,13 @@ pub(super) fn run(case_line: &str, ctx: &mut Ctx) -> String {
         }
         let handle = profile(g.sess_cons, g.sess_serial).into_handle();
         let genr = g.genr;
+        let fetch_cons = if g.op == "tracing" { g.cons } else { None };
         let session = connect(&cluster, move |b| {
             let b = b.default_execution_profile_handle(handle.clone()).custom_identity(identity.clone());
+            let b = match fetch_cons {
+                Some(c) => b.tracing_info_fetch_consistency(c),
+                None => b,
+            };
             match genr {
                 Some(v) => b.timestamp_generator(Arc::new(FixedGen(v))),
                 None => b,
@@ -200,12 +257,31 @@ pub(super) fn run(case_line: &str, ctx: &mut Ctx) -> String {
                 }
             }};
         }
+        // manual paging: feed each response's paging state into the next `*_single_page` call
+        macro_rules! pages {
+            ($call:expr) => {{
+                let mut state = PS::start();
+                for _ in 0..(g.pages + 2) {
+                    let f = $call;
+                    match f(state.clone()).await {
+                        Ok((_, psr)) => match psr.into_paging_control_flow() {
+                            std::ops::ControlFlow::Continue(next) => state = next,
+                            std::ops::ControlFlow::Break(()) => break,
+                        },
+                        Err(_) => break,
+                    }
+                }
+            }};
+        }
         use futures::StreamExt;
         use scylla::client::caching_session::CachingSessionBuilder;
         use scylla::response::PagingState as PS;
         let kind = g.op.rsplit('_').next().unwrap_or("").to_string(); // unpaged | page | iter | batch
         let mut mark = 0usize;
-        if g.op.starts_with("query") {
+        if g.op == "tracing" {
+            // driver-built requests: what they carry is what the caller configured on the SESSION
+            let _ = session.get_tracing_info(&uuid::Uuid::from_bytes([7u8; 16])).await;
+        } else if g.op.starts_with("query") {
             let with_values = g.op.starts_with("queryv");
             let mut st = Statement::new(if with_values { SELECT } else { SELECT_ALL });
             configure!(st);
@@ -214,6 +290,8 @@ pub(super) fn run(case_line: &str, ctx: &mut Ctx) -> String {
                 ("unpaged", false) => drop(session.query_unpaged(st, ()).await),
                 ("page", false) => drop(session.query_single_page(st, (), PS::start()).await),
                 ("iter", false) => drain!(session.query_iter(st, ()).await),
+                ("pages", false) => pages!(|ps: PS| session.query_single_page(st.clone(), (), ps)),
+                ("pages", true) => pages!(|ps: PS| session.query_single_page(st.clone(), (vec![1u8, 2],), ps)),
                 ("unpaged", true) => drop(session.query_unpaged(st, (vec![1u8, 2],)).await),
                 ("page", true) => drop(session.query_single_page(st, (vec![1u8, 2],), PS::start()).await),
                 _ => drain!(session.query_iter(st, (vec![1u8, 2],)).await),
@@ -240,6 +318,7 @@ pub(super) fn run(case_line: &str, ctx: &mut Ctx) -> String {
                     match kind.as_str() {
                         "unpaged" => drop(session.execute_unpaged(&ps, (vec![1u8, 2],)).await),
                         "page" => drop(session.execute_single_page(&ps, (vec![1u8, 2],), PS::start()).await),
+                        "pages" => pages!(|st: PS| session.execute_single_page(&ps, (vec![1u8, 2],), st)),
                         _ => drain!(session.execute_iter(ps, (vec![1u8, 2],)).await),
                     }
                 }
@@ -261,13 +340,25 @@ pub(super) fn run(case_line: &str, ctx: &mut Ctx) -> String {
                     match kind.as_str() {
                         "unpaged" => drop(caching.execute_unpaged(st, (vec![1u8, 2],)).await),
                         "page" => drop(caching.execute_single_page(st, (vec![1u8, 2],), PS::start()).await),
+                        "pages" => pages!(|x: PS| caching.execute_single_page(st.clone(), (vec![1u8, 2],), x)),
                         _ => drain!(caching.execute_iter(st, (vec![1u8, 2],)).await),
                     }
                 }
             }
         } else {
             let mut b = SBatch::new(BatchType::Unlogged);
-            if g.via == "handle" {
+            if g.via == "pbatch" {
+                // Session::prepare_batch: unprepared and prepared statements in mixed positions
+                let Ok(ps) = session.prepare(INSERT).await else { return Err("e2e-skip prepare-failed".to_string()) };
+                b.append_statement(Statement::new(TEXTA));
+                b.append_statement(ps);
+                b.append_statement(Statement::new(TEXTB));
+                b.append_statement(Statement::new(TEXT2));
+                configure!(b);
+                if let Ok(pb) = session.prepare_batch(&b).await {
+                    let _ = session.batch(&pb, ((vec![1u8, 2],), (vec![1u8, 2], 5i32), (vec![1u8, 2],), ())).await;
+                }
+            } else if g.via == "handle" {
                 let Ok(ps) = session.prepare(INSERT).await else { return Err("e2e-skip prepare-failed".to_string()) };
                 b.append_statement(ps);
                 b.append_statement(Statement::new(TEXT2));
@@ -339,7 +430,7 @@ pub(super) fn run(case_line: &str, ctx: &mut Ctx) -> String {
     }
     .map(spec_serial_code);
     let want_ts = g.ts.or(g.genr);
-    let paged = !g.op.ends_with("unpaged") && g.op != "batch";
+    let paged = !g.op.ends_with("unpaged") && g.op != "batch" && g.op != "tracing";
     let judged: Vec<&Req> = frames.iter().skip(mark).filter(|f| !f.internal).collect();
     // PREPARE frames of the judged call: their tracing flag is the statement's when the configured statement is what
     // gets prepared (queryv_*, via=stmt, cache miss); a bare `Statement::new(text)` is prepared untraced (via=handle)
@@ -382,7 +473,7 @@ pub(super) fn run(case_line: &str, ctx: &mut Ctx) -> String {
         if (f.flags & 0x02 != 0) != g.tracing {
             ctx.fail(format!("frame {n} of `{}` via {}: tracing flag {} but set_tracing({})", g.op, g.via, f.flags & 0x02 != 0, g.tracing));
         }
-        let want_paging = if n == 0 { None } else { Some(vec![n as u8]) };
+        let want_paging = if n == 0 || g.op == "tracing" { None } else { Some(state_of(n, manual)) };
         if g.op != "batch" && paging != want_paging {
             ctx.fail(format!("frame {n} carries paging state {paging:?}, the server's previous answer was {want_paging:?}"));
         }
@@ -395,7 +486,7 @@ pub(super) fn run(case_line: &str, ctx: &mut Ctx) -> String {
         if skip != want_skip {
             ctx.fail(format!("frame {n} of `{}` via {}: skip_metadata {skip:?}, use_cached_result_metadata was {}", g.op, g.via, g.uc));
         }
-        let is_execute_path = g.op.starts_with("queryv") || g.op.starts_with("execute");
+        let is_execute_path = g.op.starts_with("queryv") || g.op.starts_with("execute") || g.op == "tracing";
         if is_execute_path && f.opcode != 0x0A || (g.op.starts_with("query_") && f.opcode != 0x07) {
             ctx.fail(format!("`{}` sent a frame with opcode {:#04x}", g.op, f.opcode));
         }
@@ -413,7 +504,25 @@ pub(super) fn run(case_line: &str, ctx: &mut Ctx) -> String {
         ));
         n += 1;
     }
-    let want_frames = if g.op.ends_with("_iter") { g.pages } else { 1 };
+    let want_frames = if g.op == "tracing" { 2 } else if g.op.ends_with("_iter") || manual { g.pages } else { 1 };
+    if g.via == "pbatch" {
+        // position i of the BATCH = the id the server announced for text i (or the given prepared statement)
+        let want: Vec<Vec<u8>> = [TEXTA, INSERT, TEXTB, TEXT2].iter().map(|t| crate::mocknode::md5ish(t)).collect();
+        for f in judged.iter() {
+            if let Parsed::Batch { statements, .. } = &f.parsed {
+                let got: Vec<Option<Vec<u8>>> = statements
+                    .iter()
+                    .map(|s| match s {
+                        crate::mocknode::BatchStmt::Prepared(id, _) => Some(id.clone()),
+                        _ => None,
+                    })
+                    .collect();
+                if got != want.iter().cloned().map(Some).collect::<Vec<_>>() {
+                    ctx.fail("BATCH after Session::prepare_batch: the statement at some position is not the one the server prepared for that position's text");
+                }
+            }
+        }
+    }
     if n != want_frames {
         ctx.fail(format!("`{}` via {} over {} page(s): the node saw {n} statement frames, expected {want_frames}", g.op, g.via, g.pages));
     }
@@ -421,17 +530,17 @@ pub(super) fn run(case_line: &str, ctx: &mut Ctx) -> String {
 }
 
 pub(super) fn generate(rng: &mut Rng, tier: Tier, emit: &mut dyn FnMut(String)) {
-    let ids = format!("{},{}", hex(&crate::mocknode::md5ish(INSERT)), hex(&crate::mocknode::md5ish(TEXT2)));
+    let ids = ids_token();
     // (op, via) combinations
     let mut combos: Vec<(String, &str)> = Vec::new();
-    for k in ["unpaged", "page", "iter"] {
+    for k in ["unpaged", "page", "iter", "pages"] {
         combos.push((format!("query_{k}"), "-"));
         combos.push((format!("queryv_{k}"), "-"));
         for via in ["handle", "stmt", "cmiss", "chit"] {
             combos.push((format!("execute_{k}"), via));
         }
     }
-    for via in ["handle", "cmiss", "chit"] {
+    for via in ["handle", "cmiss", "chit", "pbatch"] {
         combos.push(("batch".to_string(), via));
     }
     // decision table: statement consistency set / unset x serial D / N / Serial x statement profile none / given, per combo
@@ -439,11 +548,16 @@ pub(super) fn generate(rng: &mut Rng, tier: Tier, emit: &mut dyn FnMut(String)) 
         for cons in ["N", "Two"] {
             for serial in ["D", "N", "Serial"] {
                 for sp in ["-", "One/LocalSerial"] {
-                    let pages = if op.ends_with("_iter") { 2 } else { 1 };
+                    let pages = if op.ends_with("_iter") { 2 } else if op.ends_with("_pages") { 4 } else { 1 };
                     let (ts, tr) = if cons == "N" { ("N", 0) } else { ("-77", 1) };
                     emit(format!("glue LocalQuorum LocalSerial {sp} N N N N N N {op} {cons} {serial} {ts} {tr} 7 {pages} {via} 0 {ids}"));
                 }
             }
+        }
+    }
+    for fc in CONS_NAMES {
+        for (sc, ss, genr) in [("LocalQuorum", "LocalSerial", "N"), ("One", "N", "77"), ("All", "Serial", "-3")] {
+            emit(format!("glue {sc} {ss} - {genr} N N N N N tracing {fc} D N 0 7 1 - 0 {ids}"));
         }
     }
     let n = if tier == Tier::Quick { 150 } else { 1500 };
